@@ -871,7 +871,8 @@ Qed.
 Lemma HB_channel_close cfg s c h : CI s -> HB s (channel_close cfg s c h).
 Proof.
   intros Hci. unfold channel_close. destruct (get_chan s c h) as [ch|] eqn:Ech; [|apply HB_refl].
-  eapply HB_trans; [|apply HB_FR; apply FR_upd_chan; reflexivity].
+  (* the message being assembled is dropped: the mid-publish set shrinks *)
+  eapply HB_trans; [|apply HB_upd_chan; intros; [apply le_ms_nil|apply le_ms_refl]].
   set (s2 := upd_chan (fold_left (fun s cm => consumer_stop s c h (c_tag cm)) (ch_consumers ch) s) c h (fun ch => ch <| ch_consumers := [] |>)).
   assert (H2 : HB s s2).
   { subst s2. apply HB_FR. eapply FR_trans; [|apply FR_upd_chan; reflexivity]. apply FR_fold. intros; apply FR_consumer_stop. }
